@@ -41,7 +41,7 @@ def aidon_body(items, V):
         kind, obis = it[0], it[1]
         head = [T_OCTETS, 6] + list(obis)
         if kind == "str":
-            chars = V.text(f"e{k}_text", it[2]); out += [T_STRUCT, 2] + head + [T_VISIBLE, len(chars)] + chars; exp[key_of(obis)] = ("text", chars)
+            chars = V.text(f"e{k}_text", it[2], ascii_all=True); out += [T_STRUCT, 2] + head + [T_VISIBLE, len(chars)] + chars; exp[key_of(obis)] = ("text", chars)
         elif kind == "dt":
             octs, spec = enc_datetime(V, f"e{k}_dt"); out += [T_STRUCT, 2] + head + [T_OCTETS] + octs; exp[key_of(obis)] = spec
         else:
@@ -109,7 +109,7 @@ def kamstrup_body(items, V, meter_type=None, padding=()):
     """meter_type: concrete ASCII text for the meter type number element (1.1.96.1.1.255), else symbolic text; padding: indexes after which null-data octets follow"""
     n_fields = 1 + 2 * len(items)
     out = [T_STRUCT, n_fields]; exp = {"meter_manufacturer": ("text", list(b"Kamstrup"))}
-    ver = V.text("ver_text", 14); out += [T_VISIBLE, len(ver)] + ver; exp["list_ver_id"] = ("text", ver)
+    ver = V.text("ver_text", 14, ascii_all=True); out += [T_VISIBLE, len(ver)] + ver; exp["list_ver_id"] = ("text", ver)
     if 0 in padding: out += [T_NULL] * 2
     ct = meter_type is not None and bytes(meter_type).startswith(b"685")
     for k, it in enumerate(items):
@@ -117,7 +117,7 @@ def kamstrup_body(items, V, meter_type=None, padding=()):
         if kind == "str":
             if meter_type is not None and tuple(obis) == (1, 1, 96, 1, 1, 255): chars = list(meter_type)
             else:
-                chars = V.text(f"k{k}_text", it[2])
+                chars = V.text(f"k{k}_text", it[2], ascii_all=True)
                 if tuple(obis) == (1, 1, 96, 1, 1, 255): V.not_prefix(chars, b"685")      # symbolic meter type numbers stand for direct-connected meters; CT types have their own cases
             out += [T_VISIBLE, len(chars)] + chars; exp[nm] = ("text", chars)
         elif kind == "dt":
